@@ -176,6 +176,44 @@ pub fn gen_inventory_shaped_bits(rng: &mut Rng) -> String {
 
 /// Large values next to the boundaries small ones cannot reach (65 536 elements / bits, sparse DArray blocks,
 /// several select samples and hints).
+/// Runs of equal bits longer than eight 4096-bit superblocks (the distance a select sample may have to be walked),
+/// separated by short mixed stretches; 40 000 .. 200 000 bits.
+pub fn gen_long_run_bits(rng: &mut Rng) -> String {
+    let n = rng.urange(40_000, 200_000);
+    let mut bits = String::with_capacity(n);
+    let mut bit = rng.bool();
+    let mut i = 0;
+    while i < n {
+        let len = (33_000 + rng.usize_below(40_000)).min(n - i);
+        for _ in 0..len {
+            bits.push(if bit { '1' } else { '0' });
+        }
+        i += len;
+        // then the other bit: dense, sparse, or a short mixed stretch before the next long run
+        let style = rng.below(3);
+        let tail = match style {
+            0 => rng.usize_below(200),
+            _ => rng.urange(2_000, 20_000),
+        }
+        .min(n - i);
+        for k in 0..tail {
+            let other = match style {
+                0 => rng.bool() != bit,
+                1 => true,
+                _ => k % 7 == 0,
+            };
+            bits.push(if other != bit { '1' } else { '0' });
+        }
+        i += tail;
+        bit = !bit;
+    }
+    bits
+}
+
+pub fn gen_big_spec_pub(rng: &mut Rng, tier: Tier) -> Spec {
+    gen_big_spec(rng, tier)
+}
+
 fn gen_big_spec(rng: &mut Rng, tier: Tier) -> Spec {
     match rng.below(4) {
         3 => Spec::Bits {
@@ -203,9 +241,27 @@ fn gen_big_spec(rng: &mut Rng, tier: Tier) -> Spec {
         1 => {
             let kind = *rng.pick(&[Flat::BitVector, Flat::BitVectorMut, Flat::RSNarrow, Flat::RSWide, Flat::DArray, Flat::DArray0]);
             let n = *rng.pick(&[65536usize, 70000, 131072, 150000, 200000]) + rng.usize_below(2000);
-            let style = rng.below(4);
+            let style = rng.below(5);
             let mut bits = String::with_capacity(n);
             let mut i = 0;
+            if style == 4 {
+                // runs of equal bits longer than eight 4096-bit superblocks (the distance a select sample may have
+                // to be walked), separated by short mixed stretches
+                let mut bit = rng.bool();
+                while i < n {
+                    let len = (33_000 + rng.usize_below(40_000)).min(n - i);
+                    for _ in 0..len {
+                        bits.push(if bit { '1' } else { '0' });
+                    }
+                    i += len;
+                    let mixed = rng.usize_below(200).min(n - i);
+                    for _ in 0..mixed {
+                        bits.push(if rng.bool() { '1' } else { '0' });
+                    }
+                    i += mixed;
+                    bit = !bit;
+                }
+            }
             while i < n {
                 // regions of ~20 000 bits: very sparse (sparse DArray blocks), dense, or all equal
                 let len = (15000 + rng.usize_below(10000)).min(n - i);
@@ -387,6 +443,33 @@ pub fn gen_queries(spec: &Spec, rng: &mut Rng, count: usize) -> Vec<Q> {
             let ones = bits.chars().filter(|&c| c == '1').count();
             let words = (n + 63) / 64;
             qs.extend([Q::CountOnes, Q::CountZeros, Q::IterHash, Q::Space]);
+            // data-aware queries: the occurrence right after a run boundary (where a select has walked furthest from
+            // its sample), the first and the last occurrence
+            if n > 0 && matches!(kind, Flat::RSNarrow | Flat::RSWide | Flat::DArray | Flat::DArray0) {
+                let b = bits.as_bytes();
+                let mut flips: Vec<usize> = (1..n).filter(|&i| b[i] != b[i - 1]).collect();
+                if flips.len() > 64 {
+                    let step = flips.len() / 48 + 1;
+                    flips = flips.into_iter().step_by(step).collect();
+                }
+                let mut r1 = 0usize; // ones before position p, maintained incrementally over the sorted flips
+                let mut at = 0usize;
+                for &p in &flips {
+                    r1 += b[at..p].iter().filter(|&&c| c == b'1').count();
+                    at = p;
+                    if b[p] == b'1' {
+                        qs.push(Q::Select1(r1));
+                    } else if !matches!(kind, Flat::DArray) {
+                        qs.push(Q::Select0(p - r1));
+                    }
+                }
+                if ones > 0 {
+                    qs.extend([Q::Select1(0), Q::Select1(ones - 1)]);
+                }
+                if n > ones && !matches!(kind, Flat::DArray) {
+                    qs.extend([Q::Select0(0), Q::Select0(n - ones - 1)]);
+                }
+            }
             // exclusion (C06): RSNarrow::n_ones underflows on the empty vector; equal on both sides, but noisy
             while qs.len() < count {
                 let q = match (kind, rng.below(10)) {
